@@ -51,6 +51,7 @@ inductive TimerKind where
 inductive OpKind where
   | send (m : Nat)      -- Addr::send / OwningAddr::send / Sender::send
   | trySend (m : Nat)   -- WeakSender::try_send
+  | tryForce (m : Nat)  -- WeakSender::try_force_send
   | call (m : Nat)      -- Addr::call / OwningAddr::call
   | callw (m : Nat)     -- Caller::call
   | tryCall (m : Nat)   -- WeakCaller::try_call
